@@ -140,26 +140,48 @@ class Scenario:
         a, b = ab_split(self.rng, self.typ, Mf, Mf[0].shape[1])
         return 'ab %d %s %s' % (self.nf, a, b)
 
+    def abbrev_sel(self, ports, mode):
+        """row/column selections for an abbreviated measurement matrix of a standard on `ports` (1-based);
+        mode in 'full', 'rows', 'cols', 'both'; returns (rows_sel, cols_sel) or None when not allowed"""
+        ps = sorted(q - 1 for q in ports)
+        rs = ps if mode in ('rows', 'both') else None
+        cs = ps if mode in ('cols', 'both') else None
+        if rs is not None and any(q >= self.rows for q in rs):
+            return None
+        if cs is not None and any(q >= self.cols for q in cs):
+            return None
+        if self.typ == 'T16' and cs is not None:
+            return None
+        if self.typ == 'U16' and rs is not None:
+            return None
+        return rs, cs
+
     def add_reflect(self, port, code, gamma=None, abbreviated=False):
         """single reflect on VNA port `port` (1-based) with predefined code or explicit gamma handle"""
         g = GAMMA[code] if gamma is None else gamma[1]
         S = [embed(self.p, [port - 1], [[g if not callable(g) else g(f)]], self.others) for f in range(self.nf)]
-        if abbreviated and port <= self.rows and port <= self.cols:
-            Mf = self.meas(S, [port - 1], [port - 1])
-        else:
-            Mf = self.meas(S)
+        sel = self.abbrev_sel([port], abbreviated) if isinstance(abbreviated, str) else (
+            self.abbrev_sel([port], 'both') if abbreviated else None)
+        Mf = self.meas(S, *sel) if sel else self.meas(S)
         self.lines.append('cal add %d single_reflect %s %d %d' % (self.n, self.mtext(Mf), code if gamma is None else gamma[0], port))
         self.standards.append(('reflect', port, code))
 
-    def add_double_reflect(self, p1, p2, c1, c2):
+    def add_double_reflect(self, p1, p2, c1, c2, abbreviated='full'):
         S = [embed(self.p, [p1 - 1, p2 - 1], [[GAMMA[c1], 0], [0, GAMMA[c2]]], self.others) for f in range(self.nf)]
-        self.lines.append('cal add %d double_reflect %s %d %d %d %d' % (self.n, self.mtext(self.meas(S)), c1, c2, p1, p2))
+        sel = self.abbrev_sel([p1, p2], abbreviated)
+        Mf = self.meas(S, *sel) if sel else self.meas(S)
+        self.lines.append('cal add %d double_reflect %s %d %d %d %d' % (self.n, self.mtext(Mf), c1, c2, p1, p2))
+        self.standards.append(('double', (p1, p2), (c1, c2)))
 
-    def add_through(self, p1, p2, as_kind='through'):
+    def add_through(self, p1, p2, as_kind='through', abbreviated='full'):
         S = [embed(self.p, [p1 - 1, p2 - 1], [[0, 1], [1, 0]], self.others) for f in range(self.nf)]
-        Mf = self.meas(S)
+        sel = self.abbrev_sel([p1, p2], abbreviated)
+        Mf = self.meas(S, *sel) if sel else self.meas(S)
+        self.standards.append(('through', (p1, p2), as_kind))
         if as_kind == 'through':
             self.lines.append('cal add %d through %s %d %d' % (self.n, self.mtext(Mf), p1, p2))
+        elif as_kind == 'mapped_nomap' and sel is None and self.p == 2:
+            self.lines.append('cal add %d mapped %s 2 2 0 1 1 0 N' % (self.n, self.mtext(Mf)))
         elif as_kind == 'line':
             self.lines.append('cal add %d line %s 0 1 1 0 %d %d' % (self.n, self.mtext(Mf), p1, p2))
         else:
@@ -170,20 +192,32 @@ class Scenario:
         S = [embed(self.p, [p1 - 1, p2 - 1], Sstd_by_f[f], self.others) for f in range(self.nf)]
         self.lines.append('cal add %d line %s %d %d %d %d %d %d' % ((self.n, self.mtext(self.meas(S))) + tuple(handles) + (p1, p2)))
 
-    def solt(self, abbreviated=False):
-        """a determining, redundant set of fully known standards for every type"""
+    def solt(self, abbreviated=False, variety=None):
+        """a determining, redundant set of fully known standards for every type; with `variety` (an rng) the
+        entry points, port orders and abbreviated matrix shapes are varied"""
         p = self.p
+        v = variety
         for port in range(1, p + 1):
             for code in (SHORT, OPEN, MATCH):
-                self.add_reflect(port, code, abbreviated=abbreviated)
+                ab = v.choice(['full', 'rows', 'cols', 'both']) if v else abbreviated
+                if code == MATCH and self.typ in ('TE10', 'UE10', 'UE14', 'E12'):
+                    # leakage terms are only determined by full measurement matrices (vnacal_new(3)); a cell
+                    # that is never measured without a signal path is silently taken as zero leakage
+                    ab = 'full'
+                self.add_reflect(port, code, abbreviated=ab)
         for i in range(1, p + 1):
             for j in range(i + 1, p + 1):
-                self.add_through(i, j)
+                a, b = (j, i) if (v and v.random() < 0.5) else (i, j)
+                self.add_through(a, b, as_kind=v.choice(['through', 'line', 'mapped', 'mapped_nomap']) if v else 'through',
+                                 abbreviated=v.choice(['full', 'rows', 'cols', 'both']) if v else 'full')
         if self.typ in ('T16', 'U16'):
             for i in range(1, p + 1):
                 for j in range(i + 1, p + 1):
                     for c1, c2 in ((SHORT, OPEN), (OPEN, SHORT), (MATCH, SHORT), (SHORT, MATCH), (OPEN, MATCH), (MATCH, OPEN), (SHORT, SHORT), (OPEN, OPEN)):
-                        self.add_double_reflect(i, j, c1, c2)
+                        if v and v.random() < 0.5:
+                            self.add_double_reflect(j, i, c2, c1, abbreviated=v.choice(['full', 'rows', 'cols']))
+                        else:
+                            self.add_double_reflect(i, j, c1, c2, abbreviated=v.choice(['full', 'rows', 'cols']) if v else 'full')
         return self
 
     def solve(self):
